@@ -19,6 +19,7 @@ import (
 	"github.com/git-lfs/git-lfs/v3/tools/humanize"
 	"github.com/git-lfs/git-lfs/v3/tq"
 	"github.com/git-lfs/git-lfs/v3/tr"
+	"github.com/git-lfs/git-lfs/v3/verifhook"
 	"github.com/rubyist/tracerx"
 	"github.com/spf13/cobra"
 	"golang.org/x/sync/semaphore"
@@ -358,6 +359,7 @@ func pruneDeleteFiles(prunableObjects []string, logger *tasklog.Logger) {
 		if mediaFile == os.DevNull {
 			continue
 		}
+		verifhook.Crash("prune.unlink")
 		err = os.Remove(mediaFile)
 		if err != nil {
 			problems.WriteString(tr.Tr.Get("Failed to remove file %v: %v", mediaFile, err))
